@@ -7,6 +7,9 @@ package ecs
 // vMode: 0 = valid and invalid calls, 1 = valid calls only (C01/C04), 2 = rejected calls only (C10)
 var vMode = 0
 
+// vLocked: the world is locked by an open query; every structural operation must be rejected
+var vLocked = false
+
 func vPick(l string, n int) int { return int(vconcrete(uint32(vU8(l)) % uint32(n))) }
 
 // shape 0: plain archetypes {A} {A,B} {B,T} {A,P}, optional removal (recycled id, swapped row)
@@ -156,7 +159,7 @@ func (W *vWorld) opNew(tag string) {
 	if W.n >= vNE {
 		return
 	}
-	if vHasDup(cs) || !W.targetOK(t0) || !W.targetOK(t1) {
+	if vLocked || vHasDup(cs) || !W.targetOK(t0) || !W.targetOK(t1) {
 		W.expectReject(tag+"/new", func() { W.u.NewEntityRel(W.ids(cs), W.rels(cs, t0, t1)...) })
 		return
 	}
@@ -195,7 +198,7 @@ func (W *vWorld) opAdd(tag string) {
 			t1 = W.pickTarget("add.t1")
 		}
 	}
-	valid = valid && W.targetOK(t0) && W.targetOK(t1)
+	valid = valid && W.targetOK(t0) && W.targetOK(t1) && !vLocked
 	call := func() { W.u.AddRel(m.h, W.ids(cs), W.rels(cs, t0, t1)...) }
 	if !valid && m.alive && i > 1 && W.targetOK(t0) && W.targetOK(t1) {
 		return // "already has" rejections are exercised on the first two entities only
@@ -236,6 +239,7 @@ func (W *vWorld) opRemove(tag string) {
 	for _, c := range cs {
 		valid = valid && m.has[c]
 	}
+	valid = valid && !vLocked
 	call := func() { W.u.Remove(m.h, W.ids(cs)...) }
 	if !valid && m.alive && i > 1 {
 		return
@@ -279,7 +283,7 @@ func (W *vWorld) opExchange(tag string) {
 	if vIsRel(ca) {
 		t = W.pickTarget("ex.t")
 	}
-	valid := m.alive && !m.has[ca] && m.has[cr] && ca != cr && W.targetOK(t)
+	valid := m.alive && !m.has[ca] && m.has[cr] && ca != cr && W.targetOK(t) && !vLocked
 	call := func() { W.u.Exchange(m.h, W.ids([]int{ca}), W.ids([]int{cr}), W.rels([]int{ca}, t, t)...) }
 	if !valid && m.alive && i > 1 && W.targetOK(t) {
 		return // has/lacks rejections are exercised on the first two entities only
@@ -321,7 +325,7 @@ func (W *vWorld) opSetRelations(tag string) {
 	c := cR1 + vPick("sr.c", 2)
 	t := W.pickTarget("sr.t")
 	m := &W.e[i]
-	valid := m.alive && m.has[c] && W.targetOK(t)
+	valid := m.alive && m.has[c] && W.targetOK(t) && !vLocked
 	call := func() { W.u.SetRelations(m.h, RelID(W.id[c], t)) }
 	if !valid {
 		W.expectReject(tag+"/setrel", call)
@@ -344,7 +348,7 @@ func (W *vWorld) opRemoveEntity(tag string) {
 	i := vPick("re.e", W.n)
 	m := &W.e[i]
 	call := func() { W.w.RemoveEntity(m.h) }
-	if !m.alive {
+	if !m.alive || vLocked {
 		W.expectReject(tag+"/remove-entity", call)
 		return
 	}
@@ -368,7 +372,7 @@ func (W *vWorld) opCopy(tag string) {
 	m := &W.e[i]
 	var h Entity
 	call := func() { h = W.w.CopyEntity(m.h) }
-	if !m.alive {
+	if !m.alive || vLocked {
 		W.expectReject(tag+"/copy", call)
 		return
 	}
@@ -413,6 +417,10 @@ func (W *vWorld) opSet(tag string) {
 
 func (W *vWorld) opShrink(tag string) {
 	var more bool
+	if vLocked {
+		W.expectReject(tag+"/shrink", func() { W.w.Shrink() })
+		return
+	}
 	vclockbound(3599_000_000_000) // an unbounded Shrink is limited to one hour internally: assume the call takes less
 	vcheck(tag+"/shrink/no-panic", !vpanics(func() { more = W.w.Shrink() }))
 	vcheck(tag+"/shrink/done", !more)
